@@ -192,7 +192,13 @@ impl<'a> Dec<'a> {
                 0 => QOp::KeyViews,
                 1 => QOp::CloneEq,
                 2 => QOp::RepoGet,
-                _ => QOp::RepoRemove,
+                _ => {
+                    if self.ch.flag() {
+                        QOp::RepoRemove
+                    } else {
+                        QOp::UserTyped(self.n(4) as u8, self.text())
+                    }
+                },
             },
         }
     }
